@@ -102,6 +102,20 @@ func pairwiseRShapes() []rshape {
 	return out
 }
 
+// strength3RShapes: 36 shapes = every (Ev, Msg, Rev) triple with Res = Ev+Msg+Rev mod 3: every combination of any
+// three of the four factors' levels occurs (used for size-3 blocks in the thorough tier).
+func strength3RShapes() []rshape {
+	var out []rshape
+	for e := 0; e < 4; e++ {
+		for m := 0; m < 3; m++ {
+			for r := 0; r < 3; r++ {
+				out = append(out, rshape{e, m, r, (e + m + r) % 3})
+			}
+		}
+	}
+	return out
+}
+
 var addrA, addrB = chain.AddrA, chain.AddrB
 
 func mkReceipt(tx core.Transaction, s rshape, salt uint64) *core.TransactionReceipt {
